@@ -373,10 +373,14 @@ pub static G_LIVE_BYTES: AtomicI64 = AtomicI64::new(0);
 unsafe impl GlobalAlloc for CountingGlobal {
     unsafe fn alloc(&self, layout: Layout) -> *mut u8 {
         let _ = G_ALLOCS.try_with(|c| c.set(c.get() + 1));
-        let _ = G_BYTES.try_with(|c| c.set(c.get() + layout.size() as u64));
         G_TOTAL_ALLOCS.fetch_add(1, Ordering::Relaxed);
-        G_LIVE_BYTES.fetch_add(layout.size() as i64, Ordering::Relaxed);
-        System.alloc(layout)
+        let p = System.alloc(layout);
+        // bytes are counted for blocks that exist (a refused request of 2^60 bytes holds nothing)
+        if !p.is_null() {
+            let _ = G_BYTES.try_with(|c| c.set(c.get().wrapping_add(layout.size() as u64)));
+            G_LIVE_BYTES.fetch_add(layout.size() as i64, Ordering::Relaxed);
+        }
+        p
     }
     unsafe fn dealloc(&self, ptr: *mut u8, layout: Layout) {
         G_LIVE_BYTES.fetch_sub(layout.size() as i64, Ordering::Relaxed);
@@ -385,8 +389,11 @@ unsafe impl GlobalAlloc for CountingGlobal {
     unsafe fn realloc(&self, ptr: *mut u8, layout: Layout, new_size: usize) -> *mut u8 {
         let _ = G_ALLOCS.try_with(|c| c.set(c.get() + 1));
         G_TOTAL_ALLOCS.fetch_add(1, Ordering::Relaxed);
-        G_LIVE_BYTES.fetch_add(new_size as i64 - layout.size() as i64, Ordering::Relaxed);
-        System.realloc(ptr, layout, new_size)
+        let p = System.realloc(ptr, layout, new_size);
+        if !p.is_null() {
+            G_LIVE_BYTES.fetch_add((new_size as i64).wrapping_sub(layout.size() as i64), Ordering::Relaxed);
+        }
+        p
     }
 }
 
